@@ -1,7 +1,8 @@
 (* C14 — Experiment state files are updated atomically and read back faithfully.  Property theorems only. *)
 From Coq Require Import String Ascii List Bool Arith.
 Import ListNotations.
-Require Import V.Lib.PyStr V.Fs.Model V.Fs.Proofs V.Fs.Codec.
+From Coq Require Import NArith.
+Require Import V.Lib.PyStr V.Fs.Model V.Fs.Proofs V.Fs.Codec V.Fs.Wide.
 Open Scope string_scope.
 
 (* An update made of temp+rename transactions (each: create a temporary file, write it in any number
@@ -29,24 +30,31 @@ Theorem C14_frame_and_completion : forall xs : list txn, Forall good xs ->
 Proof. intros xs G. split; [exact (exec_frame xs G)|exact (exec_complete xs G)]. Qed.
 Print Assumptions C14_frame_and_completion.
 
-(* The protocols of the five real updaters (the functions compared with the recorded traces) are such
-   updates: status.txt, output.txt + output.json, status_details.json, flowir_instance.yaml (+ manifest.yaml). *)
+(* The protocols of the real updaters (the functions compared with the recorded traces) are such updates:
+   status.txt, output.txt + output.json, status_details.json, flowir_instance.yaml (+ manifest.yaml), and the
+   interface files output/input-ids.json, additional_input_data.json, properties.csv (any file name). *)
 Theorem C14_updaters_follow_the_protocol : forall d recs jn jo cs ci cm,
   let ok xs := Forall good xs /\ forall x y, In x xs -> In y xs -> tmp x <> dst y in
   ok (status_update d) /\ ok (logs_update recs jn jo) /\ ok (details_update cs) /\
-  ok (store_update cs) /\ ok (instance_update ci cm).
+  ok (store_update cs) /\ ok (instance_update ci cm) /\
+  (forall f, "T1" <> f -> ok (file_update f cs)).
 Proof.
   intros. unfold ok.
-  repeat split; try (repeat constructor; try reflexivity; discriminate);
+  split; [|split; [|split; [|split; [|split]]]];
+  try (split; [repeat constructor; try reflexivity; discriminate|
     intros x y Hx Hy; cbn in Hx, Hy;
     repeat (destruct Hx as [<-|Hx]; [|]); try contradiction;
-    repeat (destruct Hy as [<-|Hy]; [|]); try contradiction; discriminate.
+    repeat (destruct Hy as [<-|Hy]; [|]); try contradiction; discriminate]).
+  intros f Hf. split.
+  - repeat constructor; try reflexivity. exact Hf.
+  - intros x y [<-|[]] [<-|[]]. exact Hf.
 Qed.
 Print Assumptions C14_updaters_follow_the_protocol.
 
 (* The status file codec: a dictionary whose keys are distinct, lower-case, visible ASCII without '=',
-   contains 'stages', and whose values have no outer white space and - except error-description, which
-   may contain ANY characters - no line break, is read back exactly (as a map), by a loader that succeeds. *)
+   contains 'stages', and whose values other than error-description have no outer white space and no line
+   break, is read back exactly (as a map), by a loader that succeeds.  error-description is ANY text
+   (pairs_ok puts no condition on it since the F14c repair: outer white space and line breaks included). *)
 Theorem C14_codec_roundtrip : forall d, pairs_ok d ->
   status_parse (status_print d) = Some (sort_keys d) /\ forall k, lookup k (sort_keys d) = lookup k d.
 Proof. exact codec_roundtrip. Qed.
@@ -56,6 +64,18 @@ Print Assumptions C14_codec_roundtrip.
 Theorem C14_escape_roundtrip : forall s, unescape (escape s) = Some s /\ all_chars printable (escape s) = true.
 Proof. intros s. split; [apply unescape_escape|apply escape_printable]. Qed.
 Print Assumptions C14_escape_roundtrip.
+
+(* the escaping over ALL code points of a Python str (0 .. 0x10FFFF; \xhh, \uhhhh, \Uhhhhhhhh): the loader's
+   text.encode('utf-8').decode('unicode_escape') gives back the string the writer escaped, and the escaped
+   text is printable ASCII - one line of the file, whatever the description contains; on code points
+   < 256 it is the escape of the file-level model above. *)
+Theorem C14_escape_roundtrip_all_code_points : forall s : list N, Forall (fun n => (n < 1114112)%N) s ->
+  unescape_text (wide (escape_w s)) = Some s /\ all_chars printable (escape_w s) = true /\
+  forall t : string, escape_w (wide t) = escape t.
+Proof.
+  intros s V. destruct (escape_roundtrip_wide s V) as [A B]. split; [exact A|split; [exact B|exact escape_w_narrow]].
+Qed.
+Print Assumptions C14_escape_roundtrip_all_code_points.
 
 (* Histories: after any number of completed Status.update calls the file parses to the values of the
    last one; a fault during the next update leaves a file that parses to the last or to the next values. *)
@@ -67,21 +87,51 @@ Theorem C14_history : forall ds d d' f s, pairs_ok d -> pairs_ok d' ->
 Proof. intros. split; [apply history_last; assumption|apply history_fault; assumption]. Qed.
 Print Assumptions C14_history.
 
-(* non-vacuity: a dictionary with a nasty error description satisfies the guard and round-trips; an I/O
-   error in the middle of the second write of the next update leaves the previous status.txt *)
+(* ... and ANY number of further update attempts, each one completed or hit by any fault (followed by the
+   updater's error handling; the next attempt is made by the same object or by a restart that read the
+   file), in any interleaving: the file is the complete print of one value set d that was submitted - the
+   one of the last completed update or of a faulted attempt after it ([candidates]) -, it loads, and reads
+   back exactly d.  When the last attempt completes, d is that attempt's values. *)
+Theorem C14_history_any_faults : forall ds d0 (l : list attempt) s,
+  pairs_ok d0 -> Forall (fun a : attempt => pairs_ok (fst a)) l ->
+  (exists d, In d (candidates [d0] l) /\
+     read "status.txt" (run_attempts l (run (status_history_ops (ds ++ [d0])) s)) = Some (status_print d) /\
+     status_parse (status_print d) = Some (sort_keys d) /\ forall k, lookup k (sort_keys d) = lookup k d) /\
+  (forall l' d acc, candidates acc (l' ++ [(d, NoFault)]) = [d]).
+Proof.
+  intros. split; [apply history_attempts; assumption|intros; apply candidates_snoc_complete].
+Qed.
+Print Assumptions C14_history_any_faults.
+
+(* non-vacuity: a dictionary with a nasty error description (outer blanks, line breaks, backslashes, NUL,
+   NEL) satisfies the guard and round-trips; an I/O error in the middle of the second write of the next
+   update leaves the previous status.txt; a history of faulted and completed attempts; a description with
+   code points above 255 *)
 Definition ex_d : list (string * string) :=
   [("stages", "['stage0', 'stage1']"); ("exit-status", "a = b \ c");
-   (ED, String "a" (String nl (String bsl (String "n" (String (ascii_of_nat 133) (String "=" (String (ascii_of_nat 0) "b")))))))].
+   (ED, String " " (String "a" (String nl (String bsl (String "n" (String (ascii_of_nat 133) (String "=" (String (ascii_of_nat 0) (String "b" (String nl ""))))))))))].
+Definition ex_d2 : list (string * string) := [("stages", "['stage0', 'stage1']"); ("exit-status", "Failed")].
 Example C14_nonvacuous :
-  pairs_ok ex_d /\
+  pairs_ok ex_d /\ pairs_ok ex_d2 /\
   status_parse (status_print ex_d) = Some (sort_keys ex_d) /\
   read "status.txt" (run (exec (status_update ex_d) true (EIO 2 3)) [("status.txt", "old")]) = Some "old" /\
-  exec (status_update [("stages", "[]")]) true (EIO 1 3) = [Create "T1"; Append "T1" "sta"; Close "T1"].
+  exec (status_update [("stages", "[]")]) true (EIO 1 3) = [Create "T1"; Append "T1" "sta"; Close "T1"] /\
+  candidates [ex_d] [(ex_d2, Die 1 2); (ex_d, NoFault); (ex_d2, EIO 3 0); (ex_d2, Die 4 0)] = [ex_d2; ex_d2; ex_d] /\
+  read "status.txt" (run_attempts [(ex_d2, Die 1 2); (ex_d, NoFault); (ex_d2, EIO 3 0); (ex_d2, Die 4 0)] []) = Some (status_print ex_d) /\
+  escape_w [10%N; 233%N; 256%N; 8364%N; 128512%N] = "\n\xe9\u0100\u20ac\U0001f600" /\
+  unescape_text (wide (escape_w [10%N; 233%N; 256%N; 8364%N; 128512%N; 55296%N; 1114111%N])) = Some [10%N; 233%N; 256%N; 8364%N; 128512%N; 55296%N; 1114111%N].
 Proof.
-  split; [|split; [|split]]; try reflexivity.
-  unfold pairs_ok, ex_d. split; [|split].
-  - repeat constructor; cbn; intuition discriminate.
-  - left. reflexivity.
-  - intros k v H. cbn in H. destruct H as [H|[H|[H|[]]]]; inversion H; subst; split; try reflexivity;
-      split; try reflexivity; intros N; try reflexivity; exfalso; apply N; reflexivity.
+  assert (P1 : pairs_ok ex_d).
+  { unfold pairs_ok, ex_d. split; [|split].
+    - repeat constructor; cbn; intuition discriminate.
+    - left. reflexivity.
+    - intros k v H. cbn in H. destruct H as [H|[H|[H|[]]]]; inversion H; subst; split; try reflexivity;
+        intros N; try (split; reflexivity); exfalso; apply N; reflexivity. }
+  assert (P2 : pairs_ok ex_d2).
+  { unfold pairs_ok, ex_d2. split; [|split].
+    - repeat constructor; cbn; intuition discriminate.
+    - left. reflexivity.
+    - intros k v H. cbn in H. destruct H as [H|[H|[]]]; inversion H; subst; split; try reflexivity;
+        intros N; split; reflexivity. }
+  split; [exact P1|split; [exact P2|]]. repeat split; vm_compute; reflexivity.
 Qed.
